@@ -50,6 +50,11 @@ theorem errno_only_in_bsd_results :
 /-- Decoders of the other six families (dyld, fsystem, mach, perf, trace, turnstile) consult no host table. -/
 theorem non_bsd_host_free : decoders.all (fun d => d.family == 0 || hostFree d) = true := by decide +kernel
 
+/-- Every registered decoder is either translated (and so covered by the footprint facts above) or one of
+    the fifteen hand-modelled handlers, none of which imports anything from the host. -/
+theorem all_translated_or_hand_modelled :
+    decoders.all (fun d => d.supported || handModelled.contains d.key) = true := by decide +kernel
+
 /-! ### Semantics -/
 
 theorem evalFields_congr (s : Sel) (c c' : Ctx) (h : Agree s c c') (fs : List Expr)
@@ -60,7 +65,7 @@ theorem evalFields_congr (s : Sel) (c c' : Ctx) (h : Agree s c c') (fs : List Ex
     simp only [List.all_cons, Bool.and_eq_true] at hw
     simp only [evalFields, eval_congr s c c' h f hw.1, ih hw.2]
 
-theorem render_congr (s : Sel) (hsf : s.fields = true) (d : Decoder) (hf : d.fields.all (within s) = true)
+theorem render_congr (s : Sel) (_hsf : s.fields = true) (d : Decoder) (hf : d.fields.all (within s) = true)
     (hs : within s d.str = true) (h h' : Host) (t : Tables) (w : Window)
     (hag : Agree s { host := h, tables := t, win := w } { host := h', tables := t, win := w }) :
     render h t d w = render h' t d w := by
